@@ -39,6 +39,15 @@ def B(block, params=None, kind="small", n=40, tagmap=None, sync=False, big=False
     return d
 
 
+def _hdlc_stream():
+    """A bit stream with idle ones, three frames (stuffing-heavy payloads), shared and separate flags."""
+    from checks.hdlc import body_bits, FLAG
+    bits = [1] * 9 + FLAG
+    for payload, nflags in (([0x7E, 5, 0xFF], 1), ([1, 2, 3, 4, 0x3F, 0xFF, 0xFF], 2), ([0x55], 1)):
+        bits += body_bits(payload) + FLAG * nflags
+    return bits + [0, 1, 1]
+
+
 def block_table(thorough):
     t = []
     # derive(sync) blocks
@@ -101,6 +110,7 @@ def block_table(thorough):
           B("SymbolSync", {"sps": 4.0}, "square", 120),
           B("ToText<u8>", {}, "bytes", 30),
           B("ToText2<u8>", {}, "bytes", 25, kinds=["bytes", "small"]),
+          B("HdlcDeframer", {"min": 1, "max": 60}, "bits", 0, extra={"data": [_hdlc_stream()]}),
           B("StreamToPdu<u8>", {"max": 20, "tail": 2}, "bytes", 80, extra={"force_tags": "burst"}),
           B("StreamToPdu<u8>", {"max": 5, "tail": 0}, "bytes", 80, extra={"force_tags": "burst"}),
           B("StreamToPdu<u8>", {"max": 4, "tail": 2}, "bytes", 90, extra={"force_tags": "burst"}),
